@@ -50,8 +50,11 @@ def make_case(rng, fluids, small=False):
             w = [float(rng.randint(1, 40)) for _ in range(ntube)]
         else:
             w = [rng.uniform(0.5, 40) for _ in range(ntube)]
-        metal = [[[[inlet[i] + rng.uniform(20, 250) for _ in range(nz)] for _ in range(nt)]
-                  for _ in range(ntube)] for i in range(ntime)]
+        # most tubes are heated by their wall; in about a third of the panels some tube is COOLED by it (shaded tube,
+        # cold start: wall below the arriving stream, outlet colder than inlet)
+        cold = [rng.random() < 0.5 for _ in range(ntube)] if rng.random() < 0.35 else [False] * ntube
+        metal = [[[[(inlet[i] - rng.uniform(20, 150)) if cold[j] else (inlet[i] + rng.uniform(20, 250)) for _ in range(nz)]
+                   for _ in range(nt)] for j in range(ntube)] for i in range(ntime)]
         panels.append({"weights": w, "ri": rng.uniform(5, 25), "h": rng.uniform(2000, 12000),
                        "metal": metal})
     t = rng.choice([times[0], times[-1], times[rng.randrange(ntime)]]) if rng.random() < 0.25 \
